@@ -141,15 +141,15 @@ var metas = map[string]propMeta{
 	"C05": {quickRuns: 6000, thoroughSec: 600, batch: 500, level: "exploration"},
 	"C06": {quickRuns: 3000, thoroughSec: 600, batch: 300, level: "fault_enumeration"},
 	"C07": {quickRuns: 4000, thoroughSec: 600, batch: 400, level: "exploration"},
-	"C08": {quickRuns: 2500, thoroughSec: 900, batch: 250, level: "exploration"},
-	"C09": {quickRuns: 1500, thoroughSec: 900, batch: 150, level: "exploration"},
-	"C10": {quickRuns: 2500, thoroughSec: 1200, batch: 200, level: "exploration"},
-	"C11": {quickRuns: 2500, thoroughSec: 1200, batch: 200, level: "exploration"},
-	"C12": {quickRuns: 2500, thoroughSec: 1200, batch: 200, level: "exploration"},
-	"C13": {quickRuns: 2500, thoroughSec: 1200, batch: 200, level: "exploration"},
-	"C14": {quickRuns: 2500, thoroughSec: 1200, batch: 200, level: "exploration"},
-	"C15": {quickRuns: 600, thoroughSec: 1200, batch: 100, level: "exploration", race: true},
-	"C16": {quickRuns: 1500, thoroughSec: 1200, batch: 150, level: "exploration"},
+	"C08": {node: true, quickRuns: 2500, thoroughSec: 900, batch: 250, level: "exploration"},
+	"C09": {node: true, quickRuns: 1500, thoroughSec: 900, batch: 150, level: "exploration"},
+	"C10": {node: true, quickRuns: 2500, thoroughSec: 1200, batch: 200, level: "exploration"},
+	"C11": {node: true, quickRuns: 2500, thoroughSec: 1200, batch: 200, level: "exploration"},
+	"C12": {node: true, quickRuns: 2500, thoroughSec: 1200, batch: 200, level: "exploration"},
+	"C13": {node: true, quickRuns: 2500, thoroughSec: 1200, batch: 200, level: "exploration"},
+	"C14": {node: true, quickRuns: 2500, thoroughSec: 1200, batch: 200, level: "exploration"},
+	"C15": {node: true, quickRuns: 600, thoroughSec: 1200, batch: 100, level: "exploration", race: true},
+	"C16": {node: true, quickRuns: 1500, thoroughSec: 1200, batch: 150, level: "exploration"},
 	"C20": {quickRuns: 3000, thoroughSec: 600, batch: 300, level: "fault_enumeration"},
 }
 
@@ -324,7 +324,7 @@ type replayWorker struct {
 }
 
 func startReplayWorker(bi *buildInfo, prop string) (*replayWorker, error) {
-	cmd := workerCmd(bi, job{Prop: prop, Mode: "replay"}, 2)
+	cmd := workerCmd(bi, job{Prop: prop, Mode: "replay", WantHist: os.Getenv("VERIF_SHOW_HISTORY") != ""}, 2)
 	in, _ := cmd.StdinPipe()
 	stdout, _ := cmd.StdoutPipe()
 	cmd.Stderr = nil
@@ -916,6 +916,12 @@ func doReplay(path string) int {
 	}
 	if len(o.EngineErr) > 0 {
 		die2("replay hit an engine error: %s", strings.Join(o.EngineErr, "; "))
+	}
+	if os.Getenv("VERIF_SHOW_HISTORY") != "" {
+		for _, l := range o.History {
+			fmt.Println(l)
+		}
+		fmt.Printf("live=%v steps=%d\n", o.Live, o.Steps)
 	}
 	if hasOracle(o, rf.Oracle) {
 		same := "digest identical to the recorded run"
